@@ -82,7 +82,7 @@ class TracedRaw(io.FileIO):
         return super().close()
 
 
-def make_shims(inj):
+def make_shims(inj, stat_seam=False):
     """-> (open_shim, os_shim, tempfile_shim) bound to one Injector."""
     fdnames = {}
 
@@ -145,7 +145,29 @@ def make_shims(inj):
             os._exit(78)
         return _real_os.write(fd, data)
 
-    os_shim = ShimModule(_real_os, fdopen=fdopen, replace=replace, rename=rename, remove=remove, unlink=unlink, chmod=chmod, write=write)
+    # stat family: a metadata query is an environment call that can fail too (EIO, ESTALE).  os.stat
+    # raises; the os.path predicates answer False on ANY OSError (that is what posixpath does), which is
+    # exactly why code that asks `exists()` instead of handling FileNotFoundError loses data on an I/O error
+    def stat(path, *a, **kw):
+        inj.op("stat", path)
+        return _real_os.stat(path, *a, **kw)
+
+    def _predicate(name):
+        real = getattr(_real_os.path, name)
+
+        def pred(path):
+            try:
+                inj.op("stat", path)
+            except OSError:
+                return False
+            return real(path)
+
+        pred.__name__ = name
+        return pred
+
+    path_shim = ShimModule(_real_os.path, **{n: _predicate(n) for n in ("exists", "lexists", "isfile", "isdir")})
+    extra = {"stat": stat, "path": path_shim} if stat_seam else {}  # opt-in (C13); C19's entry check is built on stat
+    os_shim = ShimModule(_real_os, fdopen=fdopen, replace=replace, rename=rename, remove=remove, unlink=unlink, chmod=chmod, write=write, **extra)
     tempfile_shim = ShimModule(_tempfile, mkstemp=mkstemp)
     return open_shim, os_shim, tempfile_shim
 
@@ -161,6 +183,7 @@ ERRNOS = {
     "unlink": [errno.EACCES],
     "mkstemp": [errno.ENOSPC, errno.EACCES],
     "chmod": [errno.EPERM],
+    "stat": [errno.EIO],
 }
 
 
